@@ -159,8 +159,14 @@ def gen_grouping(rng, n, kinds=('unique', 'groups', 'allsame'), allow_allsame=Tr
         labs = _str_labels(labs, uni=rng.chance(0.2))
     elif typ == 'int' and rng.chance(0.3):
         # labels that include zero and negative numbers (falsy / sign-sensitive handling)
-        lo = sorted(set(labs))[len(set(labs)) // 2]
-        labs = [x - lo for x in labs]
+        ds = sorted(set(labs))
+        if rng.chance(0.5):
+            lo = ds[len(ds) // 2]
+            labs = [x - lo for x in labs]
+        else:
+            # consecutive codes around zero (sessions coded -2..2): neighbours such as -1 and -2 are different groups
+            code = {v: i - len(ds) // 2 - 1 for i, v in enumerate(ds)}
+            labs = [code[x] for x in labs]
     elif typ == 'float':
         # fractional labels; sometimes onset-like values that are close to each other relative to their magnitude
         labs = [1.7e9 + 2.5 * x for x in labs] if rng.chance(0.35) else [x + 0.5 for x in labs]
